@@ -29,6 +29,7 @@ type c10Run struct {
 	handler *fpgo.HandlerDef
 	mapped  bool
 	onNext  func(id, v int) // scenario hook, runs inside the callback after logging
+	nilSubs bool
 }
 
 func (r *c10Run) who() string {
@@ -41,9 +42,18 @@ func (r *c10Run) who() string {
 }
 func (r *c10Run) name(n string) { r.mu.Lock(); r.thr[gid()] = n; r.mu.Unlock() }
 
+// every second run also registers subscriptions WITHOUT an OnNext callback (on the origin before Map is derived, and between the
+// ordinary subscribers): they receive nothing and must not keep anybody registered after them from receiving
+var c10Runs int
+
 func newC10(mapped, useHandler bool) *c10Run {
 	r := &c10Run{rec: &recorder{}, subs: map[int]*fpgo.Subscription[int]{}, thr: map[int64]string{}, mapped: mapped}
 	r.pub = fpgo.PublisherNewGenerics[int]()
+	c10Runs++
+	r.nilSubs = c10Runs%2 == 0
+	if r.nilSubs {
+		r.pub.Subscribe(fpgo.Subscription[int]{})
+	}
 	r.subPub = r.pub
 	if mapped {
 		r.subPub = r.pub.Map(func(v int) int { return 2 * v })
@@ -64,6 +74,9 @@ func (r *c10Run) subscribe() int {
 	r.nsubs++
 	id := r.nsubs
 	r.mu.Unlock()
+	if r.nilSubs && id == 2 {
+		r.subPub.Subscribe(fpgo.Subscription[int]{}) // a callback-less subscription registered between the first and the second
+	}
 	r.rec.ev(E{"ev": "sub", "ph": "inv", "id": id, "v": 0, "thr": r.who()})
 	s := r.subPub.Subscribe(fpgo.Subscription[int]{OnNext: func(v int) {
 		r.rec.ev(E{"ev": "onnext", "ph": "-", "id": id, "v": v, "thr": r.who()})
